@@ -447,7 +447,16 @@ def rule_invalid_arg_guards(eng, rep, ctx):
         hit = None
         for s, gs in site_guards.items():
             opt = any((a.op == ("truth" if want else "false")) and isinstance(a.lhs, ast.Call) and param_key(eng, a.lhs) == key for a in gs)
-            cmp_ = any(a.op in ("lt", "le") and set(small) <= mentions(a.lhs) and set(large) <= mentions(a.rhs) for a in gs)
+            def _m(e, s=s):
+                # names of the expression, an explaining local replaced by its defining expression (one level)
+                if isinstance(e, ast.Name):
+                    from .common import expand_locals
+                    try:
+                        return mentions(e) | mentions(expand_locals(cfg, A(s), e, depth=1))
+                    except Exception:
+                        return mentions(e)
+                return mentions(e)
+            cmp_ = any(a.op in ("lt", "le") and set(small) <= _m(a.lhs) and set(large) <= _m(a.rhs) for a in gs)
             if opt and cmp_:
                 hit = s
         if hit is not None:
@@ -1016,6 +1025,20 @@ def rule_validators_test_the_value_itself(eng, rep, rule="C07-5b.type-validators
             continue
         n += 1
         val = V.posparams[0]
+        type_params = set()
+        # a thin wrapper `def check_integer(val, ..): return _check_number(val, int, ..)` is judged through the helper it delegates to, with the helper's
+        # type parameter standing for the type named at the call
+        wbody = [st for st in V.node.body if not (isinstance(st, ast.Expr) and isinstance(st.value, ast.Constant))]
+        if len(wbody) == 1 and isinstance(wbody[0], ast.Return) and isinstance(wbody[0].value, ast.Call) and eng.res.calls.get(id(wbody[0].value)) is not None:
+            hc = eng.res.calls[id(wbody[0].value)]
+            hts = [t for t in hc.targets if isinstance(getattr(t, "node", None), ast.FunctionDef)]
+            if len(hts) == 1:
+                hb = bind_call(wbody[0].value, hts[0], False)
+                hval = [pn for pn, e in hb.params.items() if isinstance(e, ast.Name) and e.id == val]
+                htyp = [pn for pn, e in hb.params.items() if isinstance(e, ast.AST) and not isinstance(e, ast.Constant)
+                        and set(x.id for x in ast.walk(e) if isinstance(x, ast.Name)) and set(x.id for x in ast.walk(e) if isinstance(x, ast.Name)) <= expected[tstr]]
+                if len(hval) == 1 and not hb.errors:
+                    V, val, type_params = hts[0], hval[0], set(htyp)
         vcfg = eng.cfg(V)
         reassigned = [m for m in vcfg.g.nodes if m != vcfg.entry and val in vcfg.defs_of(m)[0]]
         if reassigned:
@@ -1027,7 +1050,7 @@ def rule_validators_test_the_value_itself(eng, rep, rule="C07-5b.type-validators
             if isinstance(e, ast.BoolOp) and isinstance(e.op, ast.Or):
                 return all(is_type_test(v) for v in e.values)
             return isinstance(e, ast.Call) and isinstance(e.func, ast.Name) and e.func.id == "isinstance" and len(e.args) == 2 and ekey(e.args[0]) == val \
-                and set(x.id for x in ast.walk(e.args[1]) if isinstance(x, ast.Name)) <= expected[tstr]
+                and set(x.id for x in ast.walk(e.args[1]) if isinstance(x, ast.Name)) <= (expected[tstr] | type_params)
 
         okv = True
         for m, d in vcfg.g.nodes(data=True):
@@ -1197,7 +1220,14 @@ def rule_coordinate_precondition_established(eng, rep, rule="C07-13.precondition
         rep.unknown(rule, eng.where(ic), "the asserted precondition `num_pts <= ...` of the coordinate initialiser was not found")
         return
 
-    def norm(e):
+    def norm(e, at=None):
+        # (an explaining local such as `max_npt = (n + 1) * (n + 2) // 2` is looked through where the expression is evaluated)
+        if at is not None and e is not None and isinstance(e, ast.Name):
+            from .common import expand_locals
+            try:
+                e = expand_locals(cfg, at, e, depth=1)       # one level: the local's defining expression, its own names left alone
+            except Exception:
+                pass
         return ekey(e).replace("self.n()", "n").replace(" ", "")
 
     B = norm(bound)
@@ -1222,9 +1252,10 @@ def rule_coordinate_precondition_established(eng, rep, rule="C07-13.precondition
     for n, d in cfg.g.nodes(data=True):
         st = d["ast"]
         if d["kind"] == "stmt" and isinstance(st, ast.Assign) and ekey(st.targets[0]) == "exit_info" and "EXIT_INPUT_ERROR" in ekey(st.value):
-            gs = [a for (_b, a) in guards_of(cfg, n)]
+            gsb = guards_of(cfg, n)
+            gs = [a for (_b, a) in gsb]
             has_r = any(a.op == "false" and is_random(a.lhs) for a in gs)
-            has_b = any(a.op == "lt" and norm(a.lhs) == B and ekey(a.rhs) == npt_name for a in gs)      # bound < npt
+            has_b = any(a.op == "lt" and norm(a.lhs, cfg.ast_of(b_)) == B and ekey(a.rhs) == npt_name for (b_, a) in gsb)      # bound < npt
             if has_r and has_b:
                 found = True
                 rep.ok(rule, eng.where(solve, st), "`not params('%s') and %s > %s` is rejected with the input-error flag" % (KEY, npt_name, ekey(bound)))
@@ -1241,7 +1272,7 @@ def rule_coordinate_precondition_established(eng, rep, rule="C07-13.precondition
 
     def is_clamp(st):
         return isinstance(st, ast.Assign) and isinstance(st.value, ast.Call) and isinstance(st.value.func, ast.Name) and st.value.func.id == "min" \
-            and any(norm(a) == B for a in st.value.args) and any(ekey(a) == npt_name for a in st.value.args)
+            and any(norm(a, st) == B for a in st.value.args) and any(ekey(a) == npt_name for a in st.value.args)
 
     def node_fn(n, s):
         st = cfg.ast_of(n)
@@ -1254,7 +1285,7 @@ def rule_coordinate_precondition_established(eng, rep, rule="C07-13.precondition
             at = atom_of(cfg.ast_of(a), e["label"])
             if at.op == "truth" and is_random(at.lhs):
                 return "OK"
-            if at.op == "le" and ekey(at.lhs) == npt_name and norm(at.rhs) == B:
+            if at.op == "le" and ekey(at.lhs) == npt_name and norm(at.rhs, cfg.ast_of(a)) == B:
                 return "OK"
         return s
 
@@ -2193,9 +2224,16 @@ def rule_orthogonalised_vectors_are_tested_before_normalising(eng, rep, rule="C0
         gs_defs = {}        # name -> [cfg nodes of Gram-Schmidt steps]
         cfg = None
         for node in eng.prog.own_nodes(fi):
-            if isinstance(node, ast.Assign) and len(node.targets) == 1 and isinstance(node.value, ast.BinOp) and isinstance(node.value.op, ast.Sub):
+            if isinstance(node, ast.AugAssign) and isinstance(node.op, ast.Sub):
+                # `v -= (v.q) q` is the same step as `v = v - (v.q) q`
+                t = node.target
+                v = ast.BinOp(left=t, op=ast.Sub(), right=node.value)
+            elif isinstance(node, ast.Assign) and len(node.targets) == 1 and isinstance(node.value, ast.BinOp) and isinstance(node.value.op, ast.Sub):
                 t = node.targets[0]
                 v = node.value
+            else:
+                t = v = None
+            if v is not None:
                 if ekey(v.left) == ekey(t) and isinstance(v.right, ast.BinOp) and isinstance(v.right.op, ast.Mult):
                     parts = [v.right.left, v.right.right]
                     dots = [p for p in parts if isinstance(p, ast.Call) and ekey(p.func).split(".")[-1] == "dot" and len(p.args) == 2]
@@ -2475,6 +2513,9 @@ def rule_range_validators_test_both_ends(eng, rep, rule="C07-5c.range-validators
         cfg = eng.cfg(fi)
         # the return reached when the value is not None and of the right type: the last return of the function (else branch of the type chain)
         rets = [x for x in eng.prog.own_nodes(fi) if isinstance(x, ast.Return) and x.value is not None and {"lower", "upper"} & mentions(x.value)]
+        if len(rets) == 1 and isinstance(rets[0].value, ast.Call) and eng.res.calls.get(id(rets[0].value)) is not None \
+                and any({"lower", "upper", "allow_nonetype"} <= set(t.all_params) for t in eng.res.calls[id(rets[0].value)].targets):
+            continue          # a wrapper that hands lower / upper on to another validator, which is judged itself
         n += 1
         site = eng.where(fi)
         if len(rets) != 1:
@@ -2501,7 +2542,7 @@ def rule_range_validators_test_both_ends(eng, rep, rule="C07-5c.range-validators
         else:
             rep.bad(rule, eng.where(fi, rets[0]), "%s|range-test-wrong" % fi.fid,
                     "`%s` answers %s for value=%s, lower=%s, upper=%s (must be %s): an out-of-range parameter is accepted / a valid one refused" % (short(e, 60), bad[3], bad[0], bad[1], bad[2], bad[4]))
-    rep.require_count(rule, "range validators", n, 2)
+    rep.require_count(rule, "range validators", n, 1)
 
 
 def rule_check_all_params_reports_every_failure(eng, rep, rule="C07-5d.every-parameter-that-fails-its-check-is-reported"):
@@ -2543,6 +2584,8 @@ def rule_check_all_params_reports_every_failure(eng, rep, rule="C07-5d.every-par
             okc = False
             continue
         flag, lst = v.elts
+        from .common import expand_locals
+        flag = expand_locals(cfg, r, flag, depth=1) if isinstance(flag, ast.Name) else flag          # `all_ok = len(bad_keys) == 0; return all_ok, bad_keys`
         flag_ok = (isinstance(flag, ast.Compare) and len(flag.ops) == 1 and isinstance(flag.ops[0], ast.Eq) and ekey(flag.left) == "len(%s)" % found and const_value(flag.comparators[0]) == 0) \
             or (isinstance(flag, ast.UnaryOp) and isinstance(flag.op, ast.Not) and ekey(flag.operand) == found)
         lst_ok = found in mentions(lst)
